@@ -365,6 +365,11 @@ def obligations(tier, seed):
         ("function", {"inline_types": False, "kwonly": True, "indent_level": 1}),
     ]
     fixed = {"p": "the a b"}
+    for kind, o in (("method", {"inline_types": True, "kwonly": True, "indent_level": 1, "ftype_from_ir": True}),
+                    ("method", {"inline_types": True, "kwonly": False, "indent_level": 1, "ftype": "cls", "ftype_from_ir": True}),
+                    ("function", {"inline_types": True, "kwonly": False, "indent_level": 1, "ftype_from_ir": True})):
+        obs.append(mk_ob("bind", "fn_binding", kind, "p1_int_d", o, tier, funcs=FUNCS, pl=1))
+        obs.append(mk_ob("exec", "exec_fn", kind, "p1_int_d", o, tier, funcs=FUNCS, kind="F", fixed=fixed))
     for i, sid in enumerate(FN_SHAPES):
         for j, (kind, o) in enumerate(grid):
             if tier == "quick" and (i + j) % 4 != 0 and sid not in ("p2_plain_then_d", "p1_kwargs"):
